@@ -133,10 +133,12 @@ NOT_YET = "check not built yet (work in progress; see DESIGN.md section 5)"
 
 # what the fourth round of seeded changes added to each check (appended to the level text)
 ROUND4 = {
-    "C02": " In half of the direct cases the same search instance first answers a search to another destination.",
-    "C03": " In the application variant an earlier query on the same application declares the same feature names in other units and/or with other initial values.",
-    "C05": " A quarter of the restricted cases express the restriction through the vehicle-restriction model (height limits in three units), with a low vehicle answered first by the same service.",
-    "C06": " The load balancer also takes weights named by category (with and without a default).",
+    "C01": " One case in 250 comes from networks of 400-800 vertices (thorough 1500; unbroken chains, lattices): routes of hundreds of edges, trees of hundreds of entries.",
+    "C02": " In half of the direct cases the same search instance first answers a search to another destination; a share of the cases uses networks of up to 400 vertices (thorough 1500).",
+    "C12": " The odd values include texts of 3000 bytes in 2- and 4-byte characters at both alignments, a 30-deep array and a 200-key object; the load balancer also takes weights named by category.",
+    "C03": " In the application variant an earlier query on the same application declares the same feature names in other units and/or with other initial values; a share of the direct cases accumulates over routes of hundreds of edges (chains and lattices of up to 800 vertices, thorough 1500).",
+    "C05": " A quarter of the restricted cases express the restriction through the vehicle-restriction model (height limits in three units), with a low vehicle answered first by the same service; one network in 250 has 400-800 vertices (thorough 1500-3000).",
+    "C06": " The load balancer also takes weights named by category (with and without a default); the combustion energy applications carry a second vehicle with a prediction cache of its own, driven by every third query.",
     "C07": " Feature names are chosen so that their alphabetical order differs from their order in the state vector.",
     "C11": " Maps and state models with hundreds to tens of thousands of entries (127...257, 300, 1000 and 70 000 enumerated for all three construction paths; 13-3000 generated).",
     "C15": " Two enumerated networks of 4 000 and 9 000 vertices (thorough: 30 000 and 70 000) as gzip files with scanned counts; one case in six is also questioned through the application's graph accessors (language bindings), where a unit text must be refused or answered in the unit it names.",
